@@ -60,6 +60,8 @@ impl Generator {
         // MARK byte in the pickle
         while self.has_mark() {
             self.emit_opcode(Tuple);
+            #[cfg(pickle_fuzzer_verif)]
+            crate::verif::record(self, "close", Some(Tuple));
         }
 
         // at this point, stack has no MARKs, just regular items
@@ -72,8 +74,12 @@ impl Generator {
             let stack_len = self.state.stack.len();
             if stack_len >= 3 {
                 self.emit_opcode(Tuple3);
+                #[cfg(pickle_fuzzer_verif)]
+                crate::verif::record(self, "collapse", Some(Tuple3));
             } else if stack_len == 2 {
                 self.emit_opcode(Tuple2);
+                #[cfg(pickle_fuzzer_verif)]
+                crate::verif::record(self, "collapse", Some(Tuple2));
             } else if stack_len == 1 {
                 // exactly 1 item, we're done
                 break;
@@ -86,6 +92,8 @@ impl Generator {
         // handle edge case: stack is empty
         if self.state.stack.len() == 0 {
             self.emit_opcode(None);
+            #[cfg(pickle_fuzzer_verif)]
+            crate::verif::record(self, "pad", Some(None));
         }
 
         // final check
@@ -93,8 +101,12 @@ impl Generator {
             if matches!(*top.borrow(), StackObject::Mark) {
                 // should never happen after our cleanup, but handle it anyway
                 self.pop();
+                #[cfg(pickle_fuzzer_verif)]
+                crate::verif::record(self, "fix", Option::None);
                 if self.state.stack.len() == 0 {
                     self.emit_opcode(None);
+                    #[cfg(pickle_fuzzer_verif)]
+                    crate::verif::record(self, "pad", Some(None));
                 }
             }
         }
